@@ -129,6 +129,10 @@ func (m *Machine) callVx(caller *frame, fn *ssa.Function, args []value) (value, 
 	case "vxFloat64":
 		lo, hi := args[0].(*Term), args[1].(*Term)
 		v := m.newInput("float64", SF64)
+		if lo.Op == OpConst && hi.Op == OpConst {
+			m.fvarSort[v.Name] = true
+			m.fbounds[v.Name] = frng{fval(SF64, lo.C), fval(SF64, hi.C), true}
+		}
 		m.assume(st.And(st.FBin(OpFLE, lo, v), st.FBin(OpFLE, v, hi)))
 		return v, true
 	case "vxBytes":
